@@ -493,7 +493,10 @@ def check_datavector(ctx, fi):
         # node), so either the broadcast to the domain or a permutation of the axes by name into the domain's order lays it out
         ok = any(isinstance(c.func, ast.Attribute) and len(c.args) == 1 and
                  ((c.func.attr == 'expand' and U(c.args[0]) == 'self.domain') or
-                  (c.func.attr == 'transpose' and U(c.args[0]).replace(' ', '') in ('self.domain.attrs', 'list(self.domain.attrs)', 'tuple(self.domain.attrs)')))
+                  (c.func.attr == 'transpose' and U(c.args[0]).replace(' ', '') in ('self.domain.attrs', 'list(self.domain.attrs)', 'tuple(self.domain.attrs)')) or
+                  # self.domain.canonical(S): the attributes S in the order of self.domain - the RECEIVER supplies the order
+                  (c.func.attr == 'transpose' and U(c.args[0]).replace(' ', '') in (
+                      'self.domain.canonical(%s.domain.attrs)' % U(c.func.value).replace(' ', ''), 'self.domain.canonical(%s.domain)' % U(c.func.value).replace(' ', ''))))
                  for c in calls_in(full))
         ctx.ob('requested-order', fi, r, ok,
                'the full vector must be laid out in domain order: the summed potential (clique-merge order) goes through '
